@@ -7,30 +7,25 @@ import SalsaVerif.Model.SyncDG
 namespace SalsaVerif.Proofs.SyncDG
 open SalsaVerif.Model.SyncDG
 
-/-- A path of one or more `edges` steps. -/
-inductive Path (e : Nat → Option Nat) : Nat → Nat → Prop
-  | single {a b : Nat} : e a = some b → Path e a b
-  | cons {a b c : Nat} : e a = some b → Path e b c → Path e a c
-
-theorem Path.trans {e : Nat → Option Nat} {a b c : Nat} (h1 : Path e a b) (h2 : Path e b c) :
+theorem _root_.SalsaVerif.Model.SyncDG.Path.trans {e : Nat → Option Nat} {a b c : Nat} (h1 : Path e a b) (h2 : Path e b c) :
     Path e a c := by
   induction h1 with
   | single h => exact Path.cons h h2
   | cons h _ ih => exact Path.cons h (ih h2)
 
-theorem Path.mono {e e' : Nat → Option Nat} (h : ∀ a b, e' a = some b → e a = some b)
+theorem _root_.SalsaVerif.Model.SyncDG.Path.mono {e e' : Nat → Option Nat} (h : ∀ a b, e' a = some b → e a = some b)
     {a b : Nat} (p : Path e' a b) : Path e a b := by
   induction p with
   | single h1 => exact Path.single (h _ _ h1)
   | cons h1 _ ih => exact Path.cons (h _ _ h1) ih
 
-theorem Path.head {e : Nat → Option Nat} {a b : Nat} (p : Path e a b) :
+theorem _root_.SalsaVerif.Model.SyncDG.Path.head {e : Nat → Option Nat} {a b : Nat} (p : Path e a b) :
     ∃ m, e a = some m ∧ (m = b ∨ Path e m b) := by
   cases p with
   | single h => exact ⟨_, h, Or.inl rfl⟩
   | cons h p' => exact ⟨_, h, Or.inr p'⟩
 
-theorem Path.source_isSome {e : Nat → Option Nat} {a b : Nat} (p : Path e a b) : (e a).isSome := by
+theorem _root_.SalsaVerif.Model.SyncDG.Path.source_isSome {e : Nat → Option Nat} {a b : Nat} (p : Path e a b) : (e a).isSome := by
   obtain ⟨m, h, _⟩ := p.head
   simp [h]
 
@@ -140,5 +135,110 @@ theorem dependsOnLoop_true {e : Nat → Option Nat} {b : Nat} :
         rcases ih q h with p | ⟨rfl, _⟩
         · exact Or.inl (Path.cons hea p)
         · exact absurd rfl hq
+
+/-! ### `swapRemoveAt`, `SmallSet::remove` -/
+
+theorem set_eq_take (l : List Nat) (i : Nat) (y t : Nat) (h : l[i]? = some t) :
+    l.set i y = l.take i ++ y :: l.drop (i+1) ∧ l = l.take i ++ t :: l.drop (i+1) := by
+  have hi : i < l.length := by
+    rcases Nat.lt_or_ge i l.length with h' | h'
+    · exact h'
+    · rw [List.getElem?_eq_none h'] at h; cases h
+  constructor
+  · rw [List.set_eq_take_append_cons_drop]; simp [hi]
+  · have : l[i] = t := by
+      rw [List.getElem?_eq_getElem hi] at h; exact Option.some.inj h
+    subst this
+    simp
+
+theorem swapRemoveAt_spec (l : List Nat) (i t : Nat) (hnd : l.Nodup) (h : l[i]? = some t) :
+    (swapRemoveAt l i).Nodup ∧ ∀ x, x ∈ swapRemoveAt l i ↔ (x ∈ l ∧ x ≠ t) := by
+  have hi : i < l.length := by
+    rcases Nat.lt_or_ge i l.length with h' | h'
+    · exact h'
+    · rw [List.getElem?_eq_none h'] at h; cases h
+  unfold swapRemoveAt
+  rcases List.eq_nil_or_concat l with rfl | ⟨l', y, rfl⟩
+  · simp at hi
+  · simp only [List.concat_eq_append] at *
+    simp only [List.getLast?_append, List.getLast?_singleton, Option.some_or]
+    rw [List.nodup_append] at hnd
+    obtain ⟨hnd', _, hy⟩ := hnd
+    have hy' : y ∉ l' := fun hm => hy y hm y (by simp) rfl
+    by_cases hil : i = l'.length
+    · subst hil
+      have : t = y := by simpa using h.symm
+      subst this
+      simp only [List.set_append_right _ _ (Nat.le_refl _), Nat.sub_self, List.set_cons_zero, List.dropLast_concat]
+      refine ⟨hnd', fun x => ?_⟩
+      simp only [List.mem_append, List.mem_singleton]
+      constructor
+      · intro hx; exact ⟨Or.inl hx, fun hxt => hy' (hxt ▸ hx)⟩
+      · rintro ⟨hx | hx, hne⟩
+        · exact hx
+        · exact absurd hx hne
+    · have hi' : i < l'.length := by simp at hi; omega
+      have ht : l'[i]? = some t := by rwa [List.getElem?_append_left hi'] at h
+      obtain ⟨e1, e2⟩ := set_eq_take l' i y t ht
+      rw [List.set_append_left _ _ hi', List.dropLast_concat, e1]
+      have hnd2 := hnd'
+      rw [e2] at hnd2
+      have hy2 := hy'
+      rw [e2] at hy2
+      simp only [List.mem_append, List.mem_cons, not_or] at hy2
+      rw [List.nodup_append] at hnd2 ⊢
+      obtain ⟨n1, n2, n3⟩ := hnd2
+      rw [List.nodup_cons] at n2 ⊢
+      refine ⟨⟨n1, ⟨hy2.2.2, n2.2⟩, ?_⟩, ?_⟩
+      · intro a ha b hb
+        simp only [List.mem_cons] at hb
+        rcases hb with rfl | hb
+        · rintro rfl; exact hy2.1 ha
+        · exact n3 a ha b (by simp [hb])
+      · intro x
+        have hmem : x ∈ l' ++ [y] ↔ x ∈ List.take i l' ∨ x = t ∨ x ∈ List.drop (i+1) l' ∨ x = y := by
+          rw [List.mem_append, List.mem_singleton]
+          conv => lhs; rw [e2]
+          simp only [List.mem_append, List.mem_cons]
+          constructor
+          · rintro ((h|h|h)|h) <;> simp [h]
+          · rintro (h|h|h|h) <;> simp [h]
+        rw [hmem]
+        simp only [List.mem_append, List.mem_cons]
+        have ht1 : t ∉ List.take i l' := fun hm => n3 t hm t (by simp) rfl
+        have ht2 : t ∉ List.drop (i+1) l' := n2.1
+        have hty : t ≠ y := by
+          rintro rfl; exact hy' (List.mem_of_getElem? ht)
+        constructor
+        · rintro (h | rfl | h)
+          · exact ⟨Or.inl h, fun e => ht1 (e ▸ h)⟩
+          · exact ⟨Or.inr (Or.inr (Or.inr rfl)), fun e => hty e.symm⟩
+          · exact ⟨Or.inr (Or.inr (Or.inl h)), fun e => ht2 (e ▸ h)⟩
+        · rintro ⟨h | h | h | h, hne⟩
+          · exact Or.inl h
+          · exact absurd h hne
+          · exact Or.inr (Or.inr h)
+          · exact Or.inr (Or.inl h)
+
+theorem smallSetRemove_spec (l : List Nat) (v : Nat) (hnd : l.Nodup) :
+    (smallSetRemove l v).Nodup ∧ ∀ x, x ∈ smallSetRemove l v ↔ (x ∈ l ∧ x ≠ v) := by
+  unfold smallSetRemove
+  cases hf : l.findIdx? (· == v) with
+  | none =>
+    simp only
+    rw [List.findIdx?_eq_none_iff] at hf
+    refine ⟨hnd, fun x => ⟨fun hx => ⟨hx, ?_⟩, fun hx => hx.1⟩⟩
+    rintro rfl
+    have := hf x hx
+    simp at this
+  | some i =>
+    simp only
+    rw [List.findIdx?_eq_some_iff_getElem] at hf
+    obtain ⟨hi, hp, _⟩ := hf
+    have : l[i]? = some v := by
+      rw [List.getElem?_eq_getElem hi]
+      simp at hp
+      rw [hp]
+    exact swapRemoveAt_spec l i v hnd this
 
 end SalsaVerif.Proofs.SyncDG
